@@ -388,13 +388,16 @@ def real_requester(evs):
     ch = _Chan()
     conn = Connection(rpyc.VoidService(), ch, config={})
     log = []
+    told_sent = []          # sequence numbers of the requests whose _async_request returned (the caller was NOT told the send failed)
     try:
         first = None
         for e in evs:
             if e[0] == 0:
                 ch.fail = not e[2]
+                before = set(conn._request_callbacks)
                 try:
                     conn._async_request(consts.HANDLE_PING, (b"x",), (lambda is_exc, obj, cb=e[1]: log.append([cb, 1 if is_exc else 0])))
+                    told_sent.extend(sorted(set(conn._request_callbacks) - before))
                 except EOFError:
                     pass
                 finally:
@@ -414,7 +417,9 @@ def real_requester(evs):
                 else:
                     conn._dispatch(brine.dump((consts.MSG_REPLY, e[1], (consts.LABEL_VALUE, 7))))
         nxt = next(conn._seqcounter)
-        return {"next": nxt, "callbacks": sorted((q, f.__defaults__[0]) for q, f in conn._request_callbacks.items()), "log": log, "keys": sorted(conn._request_callbacks)}
+        wire = [brine.load(d)[1] for d in ch.sent if brine.load(d)[0] == consts.MSG_REQUEST]
+        return {"next": nxt, "callbacks": sorted((q, f.__defaults__[0]) for q, f in conn._request_callbacks.items()), "log": log, "keys": sorted(conn._request_callbacks),
+                "wire": wire, "told_sent": told_sent}
     except BaseException as ex:
         return {"error": "%s: %s" % (type(ex).__name__, ex)}
     finally:
@@ -531,6 +536,13 @@ def run(ctx):
             mine = (m[0], sorted(map(tuple, m[1])), [list(x) for x in m[2]])
             if mine != (real["next"], real["callbacks"], real["log"]):
                 ctx.tie_broken("correspondence:requester", "events %s model %s real connection %s" % (evs, mine, real))
+            # what left the connection: exactly the requests whose caller was not told that the send failed, each once, in order
+            # (a request whose send failed must not be transmitted later with another message: its caller holds an exception for it,
+            # its callback is gone, the peer would execute it and its response would be dropped)
+            if real["wire"] != real["told_sent"]:
+                ctx.violation("request-transmitted-although-its-send-failed" if set(real["wire"]) - set(real["told_sent"]) else "request-not-transmitted-exactly-once",
+                              {"requester_events": evs}, observed={"request numbers on the wire": real["wire"]}, expected={"request numbers of the sends that succeeded": real["told_sent"]},
+                              what="the requests that left the connection are not exactly those whose send succeeded, each once, in order")
             # the property's routing clause on the real connection: a response invokes exactly the callback registered under its number, once
             seen = set()
             for cb, _ in real["log"]:
